@@ -62,6 +62,7 @@ def check(repo: Repo, rep: Report) -> None:
            "a subscriber arriving after termination is never told about the recorded error (or never about completion)")
     SC.rule_public_entry(rep, cls)
     SC.rule_dispose(rep, cls)
+    SC.rule_subscribe_atomic(rep, cls)
     SC.rule_exception_identity(rep, repo.fn(S, "Subject._subscribe_core"))
     # B6
     inner = repo.fn(SC.INNER, "InnerSubscription.dispose")
